@@ -17,6 +17,7 @@ Oracle per input of length n (see evaluate()):
 No verdict depends on the wall clock.
 """
 import gc
+import hashlib
 import json
 import os
 import shutil
@@ -54,9 +55,9 @@ RULE = ("wire: Hypothesis draws an encoding from a wire-level grammar of the byt
         "handshake messages, fed to ServerClientConnection._recvClientHello/_recvChallengeResponse of a real "
         "ServerContext and to loadb(server_public_key=..); atheris: coverage-guided raw bytes, oracle inside the "
         "target. Non-trivial = the input reaches a per-type reader (its first type id is a base type or a "
-        "registered class) and is not an unmodified valid encoding (a hostile grammar choice or an effective byte "
-        "edit was applied; for Atheris: a coverage-distinct corpus unit that does not decode to a value with "
-        "exact consumption). Distinct by input bytes + entry point.")
+        "registered class) and is not a complete valid encoding (loadb raises or does not consume it exactly), or "
+        "is a truncation / bit flip of a valid encoding; for Atheris only the coverage-distinct corpus units are "
+        "counted, by the same rule. Distinct by input bytes + entry point.")
 ASSUMPTIONS = [
     "work is measured as executed source lines of mpgameserver/serializable.py (sys.monitoring LINE events); "
     "C-level work inside struct/bytes/str/cryptography is bounded by the input length by construction and is not counted",
@@ -347,7 +348,8 @@ def _walk(v):
         elif t is EllipticCurvePublicKey and isinstance(parent, _KEY_HOLDERS):
             continue
         else:
-            return "component of type %s.%s inside %s" % (t.__module__, t.__qualname__, type(parent).__name__)
+            return "component of type %s.%s %s" % (t.__module__, t.__qualname__,
+                                                      "at the top level" if parent is None else "inside a %s" % type(parent).__name__)
     return None
 
 
@@ -468,6 +470,10 @@ def evaluate(data, target="loadb", alloc=True):
     return None, label
 
 
+def _digest(data):
+    return hashlib.blake2b(data, digest_size=12).hexdigest()
+
+
 def check_bytes(ctx, data, targets, case, hostile=True, count=True):
     """oracle + accounting for one input; raises Violation through ctx"""
     if count:
@@ -477,9 +483,15 @@ def check_bytes(ctx, data, targets, case, hostile=True, count=True):
         verdict, label = evaluate(data, t)
         if verdict is not None:
             ctx.violation(verdict[0], verdict[1], case)
-        ctx.label(("%s:" % t if t != "loadb" else "") + label)
+        if t == "loadb":
+            ctx.label(label)
+            if hostile and hostile != "edited" and label.startswith("value:") and _decodes_exactly(data):
+                hostile = False   # a complete valid encoding after all
+                ctx.label("valid-encoding")
+        else:
+            ctx.label("%s:%s" % (t, "returned" if label.startswith("value:") else "refused"))
         if known and hostile:
-            ctx.nt((t, bytes(data)))
+            ctx.nt((t, _digest(data)))
     if known:
         ctx.label("first-id-known")
     else:
@@ -1012,7 +1024,13 @@ def run_mut(spec, ctx):
     """valid encodings (library serializer) x every truncation x every single-bit flip"""
     limit = spec.get("exhaustive_len", 64)
 
-    @ctx.given(spec["n"], _values(), st.lists(st.tuples(st.integers(0, 1 << 20), st.integers(0, 7)), min_size=64, max_size=64),
+    @st.composite
+    def hidden_values(draw):   # keeps Hypothesis from ever building the repr of the recursive strategy
+        return draw(values)
+
+    values = _values()
+
+    @ctx.given(spec["n"], hidden_values(), st.lists(st.tuples(st.integers(0, 1 << 20), st.integers(0, 7)), min_size=64, max_size=64),
                salt=spec.get("i", 0))
     def test(value, flips):
         if ctx.out_of_time():
@@ -1026,7 +1044,7 @@ def run_mut(spec, ctx):
         check_bytes(ctx, data, ["loadb"], case, hostile=False)
         for k in (range(L) if L <= 8 * limit else sorted(set(p % L for p, _ in flips))):
             t = data[:k]
-            check_bytes(ctx, t, ["loadb"], {"part": "bytes", "from": "mut-trunc", "hex": t.hex(), "targets": ["loadb"]})
+            check_bytes(ctx, t, ["loadb"], {"part": "bytes", "from": "mut-trunc", "hex": t.hex(), "targets": ["loadb"]}, hostile="edited")
         if L <= limit:
             positions = [(p, b) for p in range(L) for b in range(8)]
         else:
@@ -1035,7 +1053,7 @@ def run_mut(spec, ctx):
             t = bytearray(data)
             t[p] ^= 1 << b
             t = bytes(t)
-            check_bytes(ctx, t, ["loadb"], {"part": "bytes", "from": "mut-flip", "hex": t.hex(), "targets": ["loadb"]})
+            check_bytes(ctx, t, ["loadb"], {"part": "bytes", "from": "mut-flip", "hex": t.hex(), "targets": ["loadb"]}, hostile="edited")
         ctx.label("valid-encoding")
         if L <= limit:
             ctx.label("valid-encoding-exhaustively-mutated")
@@ -1299,7 +1317,7 @@ def run_atheris(spec, ctx):
                 ctx.violation(verdict[0], verdict[1], case)
             ctx.label("atheris-unit:" + label)
             if _first_known(data) and not _decodes_exactly(data):
-                ctx.nt(("loadb", data))
+                ctx.nt(("loadb", _digest(data)))
             if units <= 2:
                 ctx.sample({"part": "atheris-corpus-unit", "hex": data.hex()})
         ctx.extra["atheris_corpus_units"] = ctx.extra.get("atheris_corpus_units", 0) + units
@@ -1363,12 +1381,12 @@ def plan(tier):
         for i in range(4):
             specs.append({"part": "atheris", "i": i, "seeded": i % 2 == 1, "runs": 200000, "max_time": 45, "fallback_n": 4000})
     else:
-        for i in range(12):
-            specs.append({"part": "wire", "n": 60000, "i": i})
-        for i in range(6):
-            specs.append({"part": "wire", "site": True, "n": 30000, "i": i})
-        for i in range(6):
-            specs.append({"part": "mut", "n": 5000, "i": i})
+        for i in range(10):
+            specs.append({"part": "wire", "n": 40000, "i": i})
+        for i in range(4):
+            specs.append({"part": "wire", "site": True, "n": 15000, "i": i})
+        for i in range(4):
+            specs.append({"part": "mut", "n": 2500, "i": i})
         for k in range(4):
             specs.append({"part": "crafted", "k": k, "of": 4, "full": True})
         for lo in range(0, 65536, 16384):
@@ -1385,7 +1403,7 @@ def _guard_memory():
     try:
         import resource
         soft, hard = resource.getrlimit(resource.RLIMIT_AS)
-        want = 6 * 1024 ** 3
+        want = 4 * 1024 ** 3
         if hard != resource.RLIM_INFINITY:
             want = min(want, hard)
         resource.setrlimit(resource.RLIMIT_AS, (want, hard))
@@ -1403,12 +1421,11 @@ def _unguard_memory(old):
 def run_shard(spec, ctx):
     part = spec["part"]
     _meter()
-    if part == "atheris":
-        run_atheris(spec, ctx)
-        return
-    old = _guard_memory()
+    old = _guard_memory()   # inherited by the Atheris / isolated-evaluation subprocesses
     try:
-        if part == "wire":
+        if part == "atheris":
+            run_atheris(spec, ctx)
+        elif part == "wire":
             run_wire(spec, ctx)
         elif part == "mut":
             run_mut(spec, ctx)
@@ -1433,9 +1450,11 @@ def replay_case(case, ctx):
     targets = case.get("targets", ["loadb"])
     if case.get("isolated"):
         tmp = os.path.join(SCRATCH, "tmp-replay-%d" % os.getpid())
+        old = _guard_memory()
         try:
             kind, res = isolated_verdict(data, targets, tmp)
         finally:
+            _unguard_memory(old)
             shutil.rmtree(tmp, ignore_errors=True)
         if kind == "died":
             ctx.violation("interpreter-abort", "decoding killed the interpreter: %s" % res, case)
